@@ -296,9 +296,91 @@ pub fn coincidences(opts: &Opts, out: &mut Out, prop: &str) -> usize {
     count
 }
 
+/// **Commitments whose encodings collide in a few bytes.** A table keyed by a short piece of an encoding (a 32-bit
+/// prefix or suffix of a compressed commitment, say) confuses distinct commitments that share it; by chance that is a
+/// 2^-32 event per pair, by a birthday search over masks it takes a fraction of a second. Pairs of distinct commitments
+/// (same value, different masks) that agree in their first four, or their last four, encoded bytes are found over the
+/// free module and used inside one aggregated proof and as two members of one batch: everything must verify.
+pub fn encoding_collisions(opts: &Opts, out: &mut Out, prop: &str) {
+    use std::collections::HashMap;
+    use tari_bulletproofs_plus::traits::Compressable;
+    let mut rng = chacha(opts.seed, 7800);
+    let (n, t) = (4usize, 1usize);
+    let pr = fmrun::params(n, 2, t);
+    let value = 5u64;
+    let base = Scalar::random(&mut rng);
+    let budget = if opts.thorough { 1usize << 19 } else { 1usize << 18 };
+    let mut firsts: HashMap<[u8; 4], u64> = HashMap::new();
+    let mut lasts: HashMap<[u8; 4], u64> = HashMap::new();
+    let mut pairs: Vec<(&str, u64, u64)> = vec![];
+    for i in 0..budget as u64 {
+        let r = base + Scalar::from(i);
+        let Ok(c) = pr.pc_gens().commit(&Scalar::from(value), &[r]) else { break };
+        let e = c.compress().0;
+        let (f, l): ([u8; 4], [u8; 4]) = (e[..4].try_into().unwrap(), e[28..].try_into().unwrap());
+        if let Some(j) = firsts.insert(f, i) {
+            if pairs.iter().filter(|p| p.0 == "first-4-bytes").count() < 2 {
+                pairs.push(("first-4-bytes", j, i));
+            }
+        }
+        if let Some(j) = lasts.insert(l, i) {
+            if pairs.iter().filter(|p| p.0 == "last-4-bytes").count() < 2 {
+                pairs.push(("last-4-bytes", j, i));
+            }
+        }
+        if pairs.len() >= 4 {
+            break;
+        }
+    }
+    out.stat("encoding_collision_pairs", pairs.len());
+    for (kind, a, b) in pairs {
+        let (ra, rb) = (base + Scalar::from(a), base + Scalar::from(b));
+        let key = format!("commitments agreeing in their {} (masks base+{} and base+{})", kind, a, b);
+        // one aggregated proof over both
+        let mut inst = fmrun::random_inst(n, 2, 2, t, 4, false, &mut rng);
+        inst.values = vec![value, value];
+        inst.promises = vec![None, Some(1)];
+        inst.blindings = vec![vec![ra], vec![rb]];
+        let stmt = inst.statement();
+        match inst.prove(&mut rng) {
+            Err(_) => out.oracle(&format!("{}:valid-witness-proved", prop), false, &key, "the prover refused a valid (statement, witness) pair"),
+            Ok(proof) => {
+                for a_ in fmrun::ACTIONS {
+                    let r = fmrun::verify_one(&inst, &stmt, &proof, a_);
+                    out.oracle(&format!("{}:honest-proof-accepted", prop), r.is_ok(), &format!("{} aggregated action={:?}", key, a_), "an honest aggregated proof over two commitments with partly equal encodings was rejected");
+                }
+            },
+        }
+        // two single proofs in one batch, both orders
+        let singles: Vec<fmrun::Inst> = [ra, rb]
+            .iter()
+            .map(|r| {
+                let mut i1 = fmrun::random_inst(n, 1, 2, t, 4, false, &mut rng);
+                i1.values = vec![value];
+                i1.promises = vec![None];
+                i1.blindings = vec![vec![*r]];
+                i1
+            })
+            .collect();
+        let proofs: Vec<Option<fmrun::Proof>> = singles.iter().map(|i| i.prove(&mut rng).ok()).collect();
+        if proofs.iter().all(|p| p.is_some()) {
+            for order in [[0usize, 1], [1, 0]] {
+                for a_ in [VerifyAction::VerifyOnly, VerifyAction::RecoverAndVerify] {
+                    let mut ts: Vec<_> = order.iter().map(|i| singles[*i].transcript()).collect();
+                    let ss: Vec<_> = order.iter().map(|i| singles[*i].statement()).collect();
+                    let ps: Vec<_> = order.iter().map(|i| proofs[*i].clone().unwrap()).collect();
+                    let r = fmrun::Proof::verify_batch(&mut ts, &ss, &ps, a_);
+                    out.oracle(&format!("{}:honest-proof-accepted", prop), r.is_ok(), &format!("{} two members order {:?} action={:?}", key, order, a_), "a batch of two honest proofs over commitments with partly equal encodings was rejected");
+                }
+            }
+        }
+    }
+}
+
 pub fn c01(opts: &Opts, out: &mut Out) {
     let mut rng = chacha(opts.seed, 1);
     coincidences(opts, out, "C01");
+    encoding_collisions(opts, out, "C01");
     let lim_fm = if opts.thorough { 1024 } else { 256 };
     let lat = lattice(opts, lim_fm, &mut rng);
     let mut cfgs = std::collections::BTreeSet::new();
